@@ -41,7 +41,15 @@ class _LoadAndSave:
 
     def __enter__(self):
         self._collection._thread_lock.__enter__()
-        self._collection._load()
+        try:
+            self._collection._load()
+        except BaseException as error:
+            # __exit__ is not called when __enter__ raises, so the lock must
+            # be released here.
+            self._collection._thread_lock.__exit__(
+                type(error), error, error.__traceback__
+            )
+            raise
 
     def __exit__(self, exc_type, exc_val, exc_tb):
         try:
